@@ -83,9 +83,13 @@ Example C20_examples :
                   [mkItem "--exclude" (Some "b"); mkItem "--stdout" (Some "stats")] with Some n => n | None => [] end) "_follow_imports_level" = Some (VStr "2")
   /\ parse_arguments toml_descs cli_descs toml_types toml_rename [("warning-level", TStr "loud")] [] = None
   /\ parse_arguments toml_descs cli_descs toml_types toml_rename [("threshold", TFloat "1.5")] [] = None
+  (* a value that starts with "-" is a value (it was taken for an option before fix 896d4cc) *)
   /\ spec_outcome toml_descs toml_types toml_rename cli_descs [("exclude", TList [TStr "-foo"])] [] <> None
-  /\ parse_arguments toml_descs cli_descs toml_types toml_rename [("exclude", TList [TStr "-foo"])] [] = None.
-Proof. vm_compute. repeat split; try reflexivity. discriminate. Qed.
+  /\ parse_arguments toml_descs cli_descs toml_types toml_rename [("exclude", TList [TStr "-foo"])] [] <> None
+  (* a boolean is no integer (it passed the type check before fix 954a4ba) *)
+  /\ parse_arguments toml_descs cli_descs toml_types toml_rename [("follow-imports", TBool false)] [] = None
+  /\ parse_arguments toml_descs cli_descs toml_types toml_rename [("threshold", TBool true)] [] = None.
+Proof. vm_compute. repeat split; try reflexivity; discriminate. Qed.
 
 (* ---------- which TOML file is selected ---------- *)
 (* model/ProjRoot.v: the chain is the working directory followed by its ancestors, with the markers the harness
